@@ -348,6 +348,10 @@ void vrhe_mode(Env &c, SplitMix &g, int mode, Stmt &st, const std::string &tag0,
 	emit_vrhe_prove(c, mode, st, ch.lines, P, tag0);
 	Side V = vrhe_verify(c, mode, st, join_lines(P.lines), ch.script);
 	emit_vrhe_verify(c, mode, st, P.lines, false, V, tag0);
+	// C04: the served challenges alpha of a false statement, for the model's exceptional-set predicate (=> the real verdict)
+	if (cheat && mode == INTER && ch.vals.size() >= n) { ZV al(ch.vals.begin(), ch.vals.begin() + n);
+		emit("args.vrhe.exceptional " + c.pqgh() + " " + std::to_string(st.r) + " " + zlist(st.R) + " " + cards(st.X1, st.X2) + " " + cards(st.Y1, st.Y2) +
+			" " + zlist(al) + " tag:" + tag0 + " => " + V.verdict); }
 	if (mode != NI && V.lines != ch.lines && tag0 == "honest")
 		emit(std::string("prop.args.predicted-verifier-lines vrhe ") + mode_name[mode] + " " + std::to_string(n) + " => mismatch");
 	if (force) return;
@@ -615,6 +619,11 @@ void groth_mode(Env &c, SplitMix &g, int mode, Stmt &st, const std::string &tag0
 	emit_groth_prove(c, mode, st, ch.lines, P, tag0);
 	Side V = groth_verify(c, mode, st, join_lines(P.lines), ch.script);
 	emit_groth_verify(c, mode, st, P.lines, false, V, tag0);
+	// C04: the served challenges t, lambda, x of a false statement, for the model's exceptional-set predicate (=> the real verdict)
+	if (cheat && mode == INTER && ch.vals.size() == n + 3) { ZV tv(ch.vals.begin(), ch.vals.begin() + n);
+		std::string ps = "["; for (size_t i = 0; i < st.n; i++) { if (i) ps += ","; ps += std::to_string(st.pi[i]); } ps += "]";
+		emit("args.groth.exceptional " + groth_hdr(c) + " " + ps + " " + zlist(st.R) + " " + cards(st.X1, st.X2) + " " + cards(st.Y1, st.Y2) +
+			" " + zlist(tv) + " " + ch.vals[n].str() + " " + ch.vals[n + 1].str() + " tag:" + tag0 + " => " + V.verdict); }
 	if (mode != NI && V.lines != ch.lines && tag0 == "honest")
 		emit(std::string("prop.args.predicted-verifier-lines groth ") + mode_name[mode] + " " + std::to_string(n) + " => mismatch");
 	if (force || pscript) return;
@@ -757,6 +766,7 @@ void groth_case(Env &c, SplitMix &g, size_t n, uint64_t cidx, bool thorough)
 // ---------------------------------------------------------------- the stack-level entry points of SchindelhauerTMCG
 // (public-coin with the VTMF group as CRS, and non-interactive).  With the prover's coins re-served they must write the
 // transcript of the direct call; the verifier wrappers add a membership test of the shuffled stack s2 (not of s).
+std::string in_child(const std::function<std::string()> &f);
 void wrapper_checks(Env &c, SplitMix &g, bool groth, Stmt &st, TMCG_Stack<VTMF_Card> &s, TMCG_Stack<VTMF_Card> &s2, TMCG_StackSecret<VTMF_CardSecret> &ss)
 {
 	if (c.own_crs) return;
@@ -793,6 +803,67 @@ void wrapper_checks(Env &c, SplitMix &g, bool groth, Stmt &st, TMCG_Stack<VTMF_C
 			mpz_set(which == 0 ? t.X1[j].v : which == 1 ? t.X2[j].v : which == 2 ? t.Y1[j].v : t.Y2[j].v, tgt);
 			static const char *fn[4] = { "s_c1", "s_c2", "s2_c1", "s2_c2" };
 			Side Vt = wverify(sx, sy); wemit(t, Vt, std::string("mut:") + fn[which] + ":" + hn);
+		}
+		// a MALFORMED statement (one stack component 0, 1, p - x or p - 1) re-proved by the honest prover algorithm, so that the
+		// Fiat-Shamir challenges fit and the verifier gets as far as the statement lets it; the responses once as written and once
+		// in their negative representatives x - q (accepted by the range checks that compare absolute values; a negative exponent
+		// makes GMP invert the base).  Run in a child: the verdict must be a refusal, never an acceptance, never a signal.
+		// Model-free lines (seed C12c: a stack check that looks at the wrong stack lets c_2 = 0 reach mpz_powm: SIGFPE).
+		for (int k = 0; k < 8; k++) {
+			static const int hows[4] = { 2, 10, 3, 4 };
+			int which = k % 4, how = hows[(k / 4 + (int)g.below(2) * 2) % 4]; size_t j = g.below(n);
+			TMCG_Stack<VTMF_Card> sx = s, sy = s2; Stmt t = st; std::string hn;
+			mpz_ptr tgt = which == 0 ? sx.stack[j].c_1 : which == 1 ? sx.stack[j].c_2 : which == 2 ? sy.stack[j].c_1 : sy.stack[j].c_2;
+			if (!mutate(g, how, tgt, c, hn)) continue;
+			mpz_set(which == 0 ? t.X1[j].v : which == 1 ? t.X2[j].v : which == 2 ? t.Y1[j].v : t.Y2[j].v, tgt);
+			static const char *fn[4] = { "s_c1", "s_c2", "s2_c1", "s2_c2" };
+			std::string res = in_child([&]() {
+				Side Pm = groth ? groth_prove(c, mode, t, join_lines(ch.lines)) : vrhe_prove(c, mode, t, join_lines(ch.lines));
+				if (Pm.verdict != "1") return std::string("prover:") + Pm.verdict;
+				std::string out;
+				for (int neg = 0; neg < 2; neg++) {
+					std::vector<std::string> L = Pm.lines;
+					if (neg) for (auto &l : L) { Z v; if (mpz_set_str(v, l.c_str(), TMCG_MPZ_IO_BASE) == 0 && mpz_sgn(v) >= 0 && mpz_cmp(v, c.A->q) < 0) { mpz_sub(v, v, c.A->q); l = b62(v); } }
+					c.rb_bits = groth ? ((mode == NI) ? 2 * c.le : c.le) : 0; c.flips_possible = (mode == PC);
+					Side r = run_side(c, [&](std::istream &in, std::ostream &o2) {
+						bool ok;
+						if (groth) ok = (mode == PC) ? tmV.TMCG_VerifyStackEquality_Groth(sx, sy, c.B.get(), c.gV.get(), in, o2) : tmV.TMCG_VerifyStackEquality_Groth_noninteractive(sx, sy, c.B.get(), c.gV.get(), in);
+						else ok = (mode == PC) ? tmV.TMCG_VerifyStackEquality_Hoogh(sx, sy, c.B.get(), c.vV.get(), in, o2) : tmV.TMCG_VerifyStackEquality_Hoogh_noninteractive(sx, sy, c.B.get(), c.vV.get(), in);
+						return b2s(ok); }, join_lines(L), ch.script);
+					out += (neg ? " " : "") + r.verdict;
+				}
+				return out; });
+			c.rb_bits = 0; c.flips_possible = true;
+			emit(std::string("prop.args.malformed ") + nm + " " + mode_name[mode] + " " + std::to_string(n) + " " + fn[which] + ":" + hn + " => " + res);
+			if (!groth && mode == NI) {
+				// the honest prover refuses a non-invertible component; a forger does not need it: the prefix h_k = f_k = g,
+				// A_k = F_k = (g, g), v = 1, rho_k = mu_k = 0, tau_k = (1 + lambda) - q with lambda recomputed over the malformed
+				// statement satisfies the first equation of the verifier for every k (no witness needed), so the verifier goes on
+				// to exponentiate the statement's components with the negative tau_k
+				// (the second equation is checked card by card from index 0 and fails at the first card: the malformed one is card 0)
+				TMCG_Stack<VTMF_Card> sx = s, sy = s2; Stmt t = st; std::string hn;
+				mpz_ptr tgt = which == 0 ? sx.stack[0].c_1 : which == 1 ? sx.stack[0].c_2 : which == 2 ? sy.stack[0].c_1 : sy.stack[0].c_2;
+				if (!mutate(g, how, tgt, c, hn)) continue;
+				mpz_set(which == 0 ? t.X1[0].v : which == 1 ? t.X2[0].v : which == 2 ? t.Y1[0].v : t.Y2[0].v, tgt);
+				std::string fres = in_child([&]() {
+					PairVec X = pairs(t.X1, t.X2), Y = pairs(t.Y1, t.Y2), Ak, Fk; std::vector<mpz_ptr> hk, fk;
+					for (size_t i = 0; i < n; i++) { Ak.push_back(std::make_pair(c.A->g, c.A->g)); Fk.push_back(std::make_pair(c.A->g, c.A->g)); hk.push_back(c.A->g); fk.push_back(c.A->g); }
+					Z v, lambda, tau; mpz_set_ui(v, 1);
+					tmcg_mpz_shash_4pairvec2vec(lambda, X, Y, Ak, Fk, hk, fk, 5, c.A->p, c.A->q, c.A->g, c.A->h, v.v);
+					mpz_mod(lambda, lambda, c.A->q); mpz_add_ui(tau, lambda, 1); mpz_mod(tau, tau, c.A->q); if (mpz_sgn(tau) > 0) mpz_sub(tau, tau, c.A->q);
+					std::vector<std::string> L;
+					for (size_t i = 0; i < n; i++) L.push_back(b62(c.A->g));
+					for (size_t i = 0; i < 2 * n; i++) L.push_back(b62(c.A->g));
+					L.push_back(b62(v));
+					for (size_t i = 0; i < n; i++) L.push_back(b62(c.A->g));
+					for (size_t i = 0; i < 2 * n; i++) L.push_back(b62(c.A->g));
+					for (size_t i = 0; i < n; i++) L.push_back(b62(tau));
+					for (size_t i = 0; i < 2 * n; i++) L.push_back("0");
+					for (size_t i = 0; i < 8 * n + 64; i++) L.push_back("1");
+					Side r = run_side(c, [&](std::istream &in, std::ostream &) { return b2s(tmV.TMCG_VerifyStackEquality_Hoogh_noninteractive(sx, sy, c.B.get(), c.vV.get(), in)); }, join_lines(L), std::vector<unsigned char>());
+					return r.verdict; });
+				emit(std::string("prop.args.malformed ") + nm + " " + mode_name[mode] + " " + std::to_string(n) + " " + fn[which] + ":" + hn + "+forged-prefix => " + fres);
+			}
 		}
 	}
 }
